@@ -1146,6 +1146,16 @@ func wrapAny(val Node, targetType *Type) Node {
 		case *GroupExpression:
 			v.Expr = wrapAny(v.Expr, targetType)
 			return v
+		case *SliceExpression: // [][1:]
+			v.Left = wrapAny(v.Left, targetType)
+			v.T = targetType
+			return v
+		case *IndexExpression: // [[]][0]
+			if v.Left.Type().Name == ARRAY {
+				v.Left = wrapAny(v.Left, &Type{Name: ARRAY, Sub: targetType})
+				v.T = targetType
+				return v
+			}
 		}
 		panic(fmt.Sprintf("internal error: untyped array: %s incompatible types: target %v, value %v", val.Token().Location(), targetType, valType))
 	}
@@ -1157,6 +1167,12 @@ func wrapAny(val Node, targetType *Type) Node {
 		case *GroupExpression:
 			v.Expr = wrapAny(v.Expr, targetType)
 			return v
+		case *IndexExpression: // [{}][0]
+			if v.Left.Type().Name == ARRAY {
+				v.Left = wrapAny(v.Left, &Type{Name: ARRAY, Sub: targetType})
+				v.T = targetType
+				return v
+			}
 		}
 		panic(fmt.Sprintf("internal error: untyped map: %s incompatible types: target %v, value %v", val.Token().Location(), targetType, valType))
 	}
